@@ -87,7 +87,7 @@ REQUIRED_CLAUSES = ["args-unchanged", "module-tables-unchanged",
                     "interleaved-calls==sequential", "int-form==float-form",
                     "args-unchanged-during-call",
                     "independent-of-decimal-context",
-                    "explicit-defaults==omitted"]
+                    "explicit-defaults==omitted", "angle-form==number-form"]
 
 
 # ------------------------------------------------------------------ discovery
@@ -929,6 +929,7 @@ class Universe(object):
         self.scribble(target, res, rs, args, inst)
         self.reuse(target, args, inst)
         self.intform(target, args, inst)
+        self.angleform(target, args, inst)
         self.ambient(target, args2, inst2, rs)
         self.defaults(target, args2, inst2, rs)
         self.quiesce()
@@ -1028,6 +1029,91 @@ class Universe(object):
                 m.group(1) for m in re.finditer(
                     r":type\s+(\w+):\s*int,\s*float\b", doc))
         return self._INTDOC[qual]
+
+    _UNIONDOC = {}
+
+    def union_params(self, target):
+        """Names of the parameters documented as a number or an Angle."""
+        qual = target[0]
+        if qual not in self._UNIONDOC:
+            import re
+            f = resolve(target)[0]
+            doc = inspect.getdoc(f) or ""
+            self._UNIONDOC[qual] = set(
+                m.group(1) for m in re.finditer(
+                    r":type\s+(\w+):[^\n]*float[^\n]*Angle", doc)
+            ) - {"args", "deg", "x", "xl", "xh"}
+        return self._UNIONDOC[qual]
+
+    def angleform(self, target, args, inst):
+        """A parameter documented as 'int, float, Angle' means the same
+        number of degrees in either form: one such argument (one only, the
+        others stay as they are) switched between number and Angle leaves
+        the result unchanged."""
+        mon = self.mon
+        qual = target[0]
+        if target[3] == "__init__":
+            return
+        names = self.union_params(target)
+        if not names:
+            return
+        from pymeeus.Angle import Angle
+        f = getattr(inst, target[3]) if inst is not None \
+            else resolve(target)[0]
+        try:
+            params = [p for p in inspect.signature(f).parameters]
+        except (TypeError, ValueError):
+            return
+        pos = [i for i, a in enumerate(args)
+               if i < len(params) and params[i] in names
+               and (isinstance(a, Angle) or (type(a) in (int, float)
+                                             and abs(a) < 360.0))]
+        if not pos:
+            return
+        k = self.rng.choice(pos)
+        a1 = copy.deepcopy(args)
+        a2 = copy.deepcopy(args)
+        a2[k] = float(args[k]._deg) if isinstance(args[k], Angle) \
+            else Angle(args[k])
+        i1 = copy.deepcopy(inst)
+        i2 = copy.deepcopy(inst)
+        mon.evals += 2
+        self.calls += 2
+        try:
+            want = snap(ap(getattr(i1, target[3]) if inst is not None
+                           else f, a1))
+        except Exception:
+            return
+        try:
+            got = snap(ap(getattr(i2, target[3]) if inst is not None
+                          else f, a2))
+        except Exception as ex:
+            got = ("raised", repr(ex))
+        mon.cls("one-argument-switched-between-number-and-Angle",
+                (qual, k, snap(a2)))
+        mon.check("angle-form==number-form",
+                  self._close(self._numeric(got), self._numeric(want)),
+                  lambda: {"target": qual, "args": a2,
+                           "switched": params[k],
+                           "as_given": repr(want)[:300],
+                           "switched_result": repr(got)[:300]})
+
+    @staticmethod
+    def _close(a, b, rel=1e-12):
+        """Snapshots equal, floats to a relative 1e-12 (the degree-to-radian
+        conversion of a number and of an Angle may round differently)."""
+        if isinstance(a, tuple) and isinstance(b, tuple):
+            if len(a) == 2 and len(b) == 2 and a[0] == "float" \
+                    and b[0] == "float" and isinstance(a[1], str) \
+                    and isinstance(b[1], str):
+                try:
+                    x, y = float.fromhex(a[1]), float.fromhex(b[1])
+                except ValueError:
+                    return a == b
+                return x == y or abs(x - y) <= rel * max(abs(x), abs(y))
+            return len(a) == len(b) and all(
+                Universe._close(p, q, rel) for p, q in zip(a, b))
+        return a == b
 
     def intform(self, target, args, inst):
         """A parameter documented as 'int, float' takes an int: the call with
